@@ -8,17 +8,19 @@ PY = sys.executable
 ids = [c["property_id"] for c in json.load(open(os.path.join(VERIF, "MANIFEST.json")))["checks"]]
 only = sys.argv[1:]
 rows = []
-for seed in sorted(os.listdir(os.path.join(VERIF, "seeded"))):
+
+
+def one(seed):
     sd = os.path.join(VERIF, "seeded", seed)
     if not os.path.isfile(os.path.join(sd, "patch.diff")) or (only and seed not in only):
-        continue
+        return
     d = tempfile.mkdtemp(prefix="pdxsa_seed_")
     try:
         shutil.copytree("/repo/src", os.path.join(d, "src"), ignore=shutil.ignore_patterns("*.egg-info", "__pycache__"))
         r = subprocess.run(["patch", "-p1", "-s", "-d", d, "-i", os.path.join(sd, "patch.diff")], capture_output=True, text=True)
         if r.returncode != 0:
             print(f"{seed}: patch does not apply: {r.stdout} {r.stderr}")
-            continue
+            return
         target = re.match(r"(C\d+)", seed).group(1)
         def run(p):
             env = dict(os.environ, PDXSA_EVIDENCE_DIR=os.path.join(d, "ev"), PDXSA_JOBS="4")
@@ -39,6 +41,11 @@ for seed in sorted(os.listdir(os.path.join(VERIF, "seeded"))):
         print(f"{seed}: target={'REPORTED' if target in det else 'MISSED'} detected_by={ {k: v[:3] for k, v in det.items()} } errors={err}", flush=True)
     finally:
         shutil.rmtree(d, ignore_errors=True)
+
+
+with ThreadPoolExecutor(int(os.environ.get("SEED_JOBS", "3"))) as outer:
+    list(outer.map(one, sorted(os.listdir(os.path.join(VERIF, "seeded")))))
+rows.sort()
 print()
 for seed, ok, det, err in rows:
     print(f"| {seed} | {'yes' if ok else 'NO'} | " + "; ".join(f"{k}: {', '.join(v[:3])}" for k, v in det.items()) + " |")
